@@ -28,19 +28,26 @@ package classdef
 //@ func (info Table) Append(buf []byte) (out []byte)   props: C08
 //@   encoder
 //@   may_panic   // a table that needs more than 65535 ranges cannot be written
+//@   modifies buf[*]
 //@   let b = len(old(buf)); start = be16(out, b + 2); cnt = be16(out, b + 4)
+//@   ensures ref(out) == ref(buf) || fresh(out)
 //@   ensures len(out) >= b + 4 && forall k int :: 0 <= k && k < b ==> out[k] == old(buf[k])
 //@   ensures len(info) >= 1 && out[b+1] == 1 ==> len(out) == b + 6 + 2*cnt
 //@   ensures len(info) >= 1 && out[b+1] == 1 ==> forall g uint16 :: has(info, g) ==> start <= g && g - start < cnt && be16(out, b + 6 + 2*(g - start)) == info[g]
 //@   return_assert len(info) >= 1 && encInfo.format1Size <= encInfo.format2Size ==> len(out) == len(old(buf)) + encInfo.format1Size
 //@   loop 0
-//@     invariant 0 <= i && i <= count && len(buf) == len(old(buf)) + 6 + 2*i && encInfo != nil
+//@     invariant 0 <= i && i <= count && len(buf) == len(old(buf)) + 6 + 2*i && encInfo != nil && (ref(buf) == ref(old(buf)) || fresh(buf))
 //@     invariant forall k int :: 0 <= k && k < len(old(buf)) ==> buf[k] == old(buf[k])
 //@     invariant buf[len(old(buf))+1] == 1 && be16(buf, len(old(buf)) + 2) == encInfo.minGid && be16(buf, len(old(buf)) + 4) == count
 //@     invariant forall g uint16 :: encInfo.minGid <= g && g < encInfo.minGid + i ==> be16(buf, len(old(buf)) + 6 + 2*(g - encInfo.minGid)) == info[g]
 //@     decreases count - i
 //@   loop 1
 //@     invariant encInfo != nil && encInfo.minGid <= i && i <= encInfo.maxGid + 1 && segStart >= -1 && segStart < i
-//@     invariant len(buf) >= len(old(buf)) + 4 && buf[len(old(buf))+1] == 2
+//@     invariant len(buf) >= len(old(buf)) + 4 && buf[len(old(buf))+1] == 2 && (ref(buf) == ref(old(buf)) || fresh(buf))
 //@     invariant forall k int :: 0 <= k && k < len(old(buf)) ==> buf[k] == old(buf[k])
 //@     decreases encInfo.maxGid + 1 - i
+
+// AppendLen: between the empty table (4 bytes) and 65536 ranges.
+//@ func (info Table) AppendLen() (n int)   props: C08 C16
+//@   ensures 4 <= n && n <= 4 + 6*65536
+//@   modifies nothing
